@@ -86,7 +86,8 @@ def _(c):
     c.ens("u_is_best", "implies(" + DET + ", pteq(pt(self.u), pt(self.u_best)))", props=["C04", "C19"])
     inv_c04(c)
     inv_c02(c)
-    c10(c, extra=("IndexError",))  # ES search with an empty survivor set (recorded under C09): not a converted target failure
+    c10(c)
+    c.unbound_checks = True  # C09: reading a local that is unbound on the path raises UnboundLocalError (u_search with an empty search set)
 
 
 @contract(B + ".optimize", serves=["C03", "C13"])
@@ -223,7 +224,7 @@ def _(c):
     # C01: the returned solution lies in the original hard box
     c.ens("returned_x_in_hard_box", "forall(self.D, lambda j: self.var_transf.orig_lb[0][j] <= self.x[j] and self.x[j] <= self.var_transf.orig_ub[0][j])",
           top=True, props=["C01"])
-    c10(c, extra=("IndexError",))
+    c10(c)
 
 
 @contract(B + "._init_optimization_", serves=["C03", "C05"])
